@@ -69,7 +69,7 @@ inductive Via where
 inductive Adopt where
   /-- `IterWrapper::new(<src>, <std iterator>)`: every item adopted by `Adopt::adopt_unchecked` -/
   | iterWrapper (src : Src)
-  /-- `unsafe { <src>.slice_ref_unchecked(s) }` written in the wrapper, once per component -/
+  /-- `<src>.slice_ref_unchecked(s)` written in the wrapper itself, once per component -/
   | sliceRef (src : Src)
   /-- allocating result (`String`): `Self::from(…)` / `.into()` / `.map(Into::into)` -/
   | fromString
@@ -189,7 +189,7 @@ inductive FwdRecv where
   deriving Repr, DecidableEq
 
 inductive ItemMap where
-  /-- `.map(|item| unsafe { item.adopt_unchecked(<src>) })` -/
+  /-- `.map(|item| item.adopt_unchecked(<src>))` -/
   | adoptFrom (src : Src)
   /-- result returned as is (no item involved, e.g. `size_hint`) -/
   | none
